@@ -40,7 +40,7 @@ def expected_stream(chunks, kind):
     for c in chunks:
         for _ in range(c):
             out += serial.to_bytes(4, "little")
-            if kind == "packet":
+            if kind.startswith("packet"):
                 out += b"\n"
             serial += 1
     return out
@@ -134,6 +134,11 @@ def c17_kill(rep, tmp, tier, only=None):
             if tier == "thorough" and kind == "stream":
                 configs.append((kind, mode, [1024, 4095, 7, 1, 3000, 2]))
             configs.append((kind, mode, chunks))
+    # Bursts of packets queued before the sink runs; and a stream large enough
+    # for one work() call to find more than 64 Ki samples waiting.
+    configs.append(("packet-burst", "overwrite", [3, 1, 4]))
+    configs.append(("packet-burst", "append", [2, 5]))
+    configs.append(("stream-big", "overwrite", [100000, 3, 70000]))
     for kind, mode, chunks in configs:
         if only and (only["kind"], only["mode"], only["chunks"]) != (kind, mode, chunks):
             continue
@@ -180,10 +185,15 @@ def c17_kill(rep, tmp, tier, only=None):
             # space as free), or work() having returned, whichever is later.
             # The packet sink has to take a packet off the queue before it can
             # write it, so there only a returned work() call acknowledges.
+            # A packet that has been taken off the queue *before the latest
+            # one* was written and flushed by then ("SER k": packet k is being
+            # serialised, packets before it are done).
             acked = 0
             for fd, txt in w1[:k - 1]:
-                if fd == 999 and (txt.startswith("RETURNED ") or (kind == "stream" and txt.startswith("ACK "))):
+                if fd == 999 and (txt.startswith("RETURNED ") or (kind.startswith("stream") and txt.startswith("ACK "))):
                     acked = max(acked, int(txt.split()[1]))
+                if fd == 999 and txt.startswith("SER "):
+                    acked = max(acked, 5 * int(txt.split()[1]))
             got = open(path, "rb").read() if os.path.exists(path) else b""
             case = dict(case0, k=k)
             body = got[len(prefix):] if got.startswith(prefix) else None
